@@ -236,6 +236,6 @@ func TestEngine(t *testing.T) {
 		if i < len(quits) {
 			q = quits[i] // every behaviour at least once
 		}
-		do(fmt.Sprintf("flush %s %d", q, 1200+100*r.IntN(6)))
+		do(fmt.Sprintf("flush %s %d", q, 3000+100*r.IntN(6))) // far beyond any scheduling delay of a loopback exchange; only a broken tree waits for it
 	}
 }
